@@ -105,6 +105,11 @@ func genOp(r *verifsim.Rng, n int) ROp {
 		op.C = pickCode(r)
 	case "header":
 		op.A = fmt.Sprintf("X-H%d=v%d", r.Intn(3), n)
+		if r.Intn(4) == 0 {
+			// one header under several spellings (header names are case-insensitive: the last set wins whatever the spelling)
+			fam := verifsim.Pick(r, [][]string{{"X-Request-ID", "x-request-id", "X-Request-Id", "X-REQUEST-ID"}, {"X-XSS-Protection", "x-xss-protection", "X-Xss-Protection"}, {"X-CSRF-Token", "x-csrf-token", "X-Csrf-Token"}})
+			op.A = fmt.Sprintf("%s=v%d", verifsim.Pick(r, fam), n)
+		}
 		switch r.Intn(8) {
 		case 0: // a name that needs canonicalisation
 			op.A = fmt.Sprintf("x-lower-%d=v%d", r.Intn(2), n)
@@ -895,7 +900,7 @@ func check(o *hx.Outcome, w *W, all []numbered, bodies map[int]string, abort int
 		if c.Status() != m.clientStatus() {
 			return false, fmt.Sprintf("status: client saw %d, model says %d", c.Status(), m.clientStatus())
 		}
-		got := c.SentHeader()
+		got := hx.ClientView(c.SentHeader())
 		for k, v := range m.clientHeaders() {
 			g := append([]string{}, got[k]...)
 			e := append([]string{}, v...)
